@@ -426,9 +426,13 @@ class SSeq:
             if type(x) is int:
                 out.append(x + 32 if 65 <= x <= 90 else x)
             else:
-                if self.kind == STR and x.hi > 0x7f:
-                    raise Unsupported('lower() on symbolic non-ascii text')
-                out.append(Ite(And(x >= 65, x <= 90), x + 32, x))
+                if self.kind == STR and x.hi > 0xff:
+                    raise Unsupported('lower() on symbolic non-latin-1 text')
+                if self.kind == STR and x.hi > 0xbf:
+                    out.append(Ite(Or(And(x >= 65, x <= 90), And(
+                        x >= 0xc0, x <= 0xde, x != 0xd7)), x + 32, x))
+                else:
+                    out.append(Ite(And(x >= 65, x <= 90), x + 32, x))
         return self._wrap_imm(out)
 
     def upper(self):
@@ -446,7 +450,7 @@ class SSeq:
         return join(self, parts)
 
     def decode(self, encoding='utf-8', errors='strict'):
-        return decode(self, encoding)
+        return decode(self, encoding, errors)
 
     def encode(self, encoding='utf-8', errors='strict'):
         return encode(self, encoding)
@@ -804,78 +808,93 @@ def hexval(c, strict=True):
     return Or(isd, isl, isu), val
 
 
-def decode(b, encoding):
+def decode(b, encoding, errors='strict'):
     enc = encoding.lower().replace('_', '-')
     items = elems_of(b)
+    if errors not in ('strict', 'ignore', 'replace'):
+        raise Unsupported('decode with errors=%r' % (errors,))
     if enc in ('ascii', 'us-ascii'):
+        out = []
         for k, x in enumerate(items):
-            if type(x) is int:
-                if x > 127:
-                    raise UnicodeDecodeError('ascii', bytes([x]), 0, 1,
-                                             'ordinal not in range(128)')
-            elif x.hi > 127:
-                if x > 127:
+            if x > 127:
+                if errors == 'strict':
                     raise UnicodeDecodeError('ascii', b'\xff', 0, 1,
                                              'ordinal not in range(128)')
-        return make(STR, items)
+                if errors == 'replace':
+                    out.append(0xfffd)
+            else:
+                out.append(x)
+        return make(STR, out)
     if enc in ('latin-1', 'latin1', 'iso-8859-1'):
         return make(STR, items)
     if enc in ('utf-8', 'utf8'):
-        return _utf8_decode(items)
+        return _utf8_decode(items, errors)
     raise Unsupported('decode with encoding %r' % encoding)
 
 
-def _utf8_decode(items):
+def _utf8_decode(items, errors='strict'):
+    """CPython's decoder: an ill-formed sequence is reported (strict) or
+    skipped / replaced by U+FFFD (ignore / replace) as its maximal
+    well-formed prefix - the lead byte and the continuation bytes that were
+    acceptable -, decoding resumes at the offending byte."""
     out = []
     k = 0
     n = len(items)
 
-    def bad(pos):
-        raise UnicodeDecodeError('utf-8', b'\xff', 0, 1,
-                                 'invalid utf-8 (symbolic)')
-
-    def cont(pos):
-        if pos >= n:
-            bad(pos)
-        c = items[pos]
-        if And(c >= 0x80, c <= 0xbf):
-            return c & 0x3f
-        bad(pos)
+    def bad(pos, length):
+        if errors == 'strict':
+            raise UnicodeDecodeError('utf-8', b'\xff', 0, 1,
+                                     'invalid utf-8 (symbolic)')
+        if errors == 'replace':
+            out.append(0xfffd)
+        return pos + length
 
     while k < n:
         x = items[k]
         if x < 0x80:
             out.append(x)
             k += 1
-        elif x < 0xc2:
-            bad(k)
-        elif x < 0xe0:
-            c1 = cont(k + 1)
-            out.append(((x & 0x1f) << 6) | c1)
-            k += 2
+            continue
+        if Or(x < 0xc2, x >= 0xf5):
+            k = bad(k, 1)
+            continue
+        lo2, hi2 = 0x80, 0xbf
+        if x < 0xe0:
+            need = 1
+            cp = x & 0x1f
         elif x < 0xf0:
-            c1 = cont(k + 1)
-            c2 = cont(k + 2)
-            cp = ((x & 0x0f) << 12) | (c1 << 6) | c2
-            if cp < 0x800:
-                bad(k)
-            if And(cp >= 0xd800, cp <= 0xdfff):
-                bad(k)
-            out.append(cp)
-            k += 3
-        elif x < 0xf5:
-            c1 = cont(k + 1)
-            c2 = cont(k + 2)
-            c3 = cont(k + 3)
-            cp = ((x & 0x07) << 18) | (c1 << 12) | (c2 << 6) | c3
-            if cp < 0x10000:
-                bad(k)
-            if cp > 0x10ffff:
-                bad(k)
-            out.append(cp)
-            k += 4
+            need = 2
+            cp = x & 0x0f
+            if x == 0xe0:
+                lo2 = 0xa0
+            elif x == 0xed:
+                hi2 = 0x9f
         else:
-            bad(k)
+            need = 3
+            cp = x & 0x07
+            if x == 0xf0:
+                lo2 = 0x90
+            elif x == 0xf4:
+                hi2 = 0x8f
+        j = 1
+        ok = True
+        while j <= need:
+            if k + j >= n:
+                ok = False
+                break
+            c = items[k + j]
+            lo, hi = (lo2, hi2) if j == 1 else (0x80, 0xbf)
+            if And(c >= lo, c <= hi):
+                cp = (cp << 6) | (c & 0x3f)
+                j += 1
+            else:
+                ok = False
+                break
+        if not ok:
+            k = bad(k, j)
+            continue
+        out.append(cp)
+        k += need + 1
     return make(STR, out)
 
 
